@@ -90,3 +90,17 @@ Theorem c17_malformed_refused :
     (d = Refuse401 \/ d = Error400 \/ d = Error500).
 Proof. exact malformed_refused. Qed.
 Print Assumptions c17_malformed_refused.
+
+(* KNOWN FINDING C17-colon-user: the hypothesis ~ In 58 user of
+   c17_good_credentials_served cannot be dropped - a configured username with a
+   colon is refused even with the right credentials (the decoded credential is
+   split at its first colon) *)
+Theorem c17_good_credentials_colon_user_refuted :
+  exists (b64decode : str -> option str) (sha1hex : str -> str) user stored p cookie,
+    user <> [] /\ In 58 user /\ password_ok sha1hex stored p /\
+    b64decode cookie = Some (user ++ 58 :: p) /\
+    first_auth [[97; 117; 116; 104; 111; 114; 73; 122; 97; 116; 105; 111; 110; 58; 32; 66; 97; 83; 105; 67; 32] ++ cookie]
+      = Some ([66; 97; 83; 105; 67], cookie) /\
+    channel b64decode sha1hex user stored (ex_block cookie) [MTrue] = (Refuse401, []).
+Proof. exists ex_b64, ex_sha. exact colon_user_refuted. Qed.
+Print Assumptions c17_good_credentials_colon_user_refuted.
